@@ -87,6 +87,8 @@ def plan(tier, seed):
   specs += [{'shard': 'twoissuers-%d' % i, 'n': 3 if q else 12, 'weight': 6}
             for i in range(4)]
   specs += [{'shard': 'u2f-%d' % i, 'n': 12 if q else 60} for i in range(2)]
+  specs += [{'shard': 'topkey-%d' % i, 'part': i, 'parts': 4,
+             'reps': 4 if q else 12, 'weight': 6} for i in range(4)]
   specs += [{'shard': 'gmp-%d' % i, 'part': i, 'parts': 4,
              'reps': 3 if q else 12, 'weight': 2} for i in range(4)]
   return specs
@@ -309,6 +311,42 @@ def run_hashlen(ctx, spec):
     pass
 
 
+def run_topkey(ctx, spec):
+  """Private keys at the top of the range (highest bit of the order length
+  set, d close to n), comfortably biased nonces: the confirmation of a
+  recovered key multiplies by the *whole* scalar."""
+  from paranoid_crypto.lib import ecdsa_sig_checks as sc
+  rng = ctx.rng('topkey')
+  checks = {k: getattr(sc, v[0])() for k, v in KINDS.items()}
+  for i, curve in enumerate(gen.STRONG):
+    if i % spec['parts'] != spec['part']:
+      continue
+    n = gen.model_curve(curve).n
+    bits = n.bit_length()
+    for rep in range(spec['reps']):
+      if not ctx.want('%s/%d' % (curve, rep)):
+        continue
+      d = [n - 1 - rng.bits(64), (1 << (bits - 1)) + rng.bits(bits - 2),
+           n - 1 - rng.bits(bits - 3)][rep % 3]
+      d = d if 0 < d < n else n - 2
+      _, pub = sigs.issuer(rng, curve, d)
+      kind = ['msb', 'prefix', 'postfix'][(i + rep) % 3]
+      w = 64
+      count = math.ceil(2.4 * 2 * bits / w)
+      arts, meta = _batch(rng, curve, d, pub, KINDS[kind][1](rng, n, w, count))
+      checks[kind].Check(arts)
+      reg = 'top-bit-key/%s' % curve.replace('CURVE_', '')
+      hit = _judge(ctx, arts, meta, KINDS[kind][0], d, n, reg)
+      ctx.count('evaluations')
+      ctx.distinct(reg, d)
+      ctx.count('tried:' + reg)
+      ctx.count(('hit:' if hit else 'miss:') + reg)
+  try:
+    ctx.sample({'regime': reg, 'curve': curve, 'd_bits': d.bit_length()})
+  except NameError:
+    pass
+
+
 def run_u2f(ctx, spec):
   from paranoid_crypto.lib import ecdsa_sig_checks as sc
   rng = ctx.rng('u2f')
@@ -373,7 +411,7 @@ def run_gmp(ctx, spec):
 def run(ctx, spec):
   s = spec['shard']
   for prefix, fn in (('bias', run_bias), ('window', run_window),
-                     ('hashlen', run_hashlen),
+                     ('hashlen', run_hashlen), ('topkey', run_topkey),
                      ('twoissuers', run_twoissuers),
                      ('u2f', run_u2f), ('gmp', run_gmp)):
     if s.startswith(prefix):
@@ -392,7 +430,7 @@ def finalize(agg, tier):
     reg = k[6:]
     n, miss = c[k], c.get('miss:' + reg, 0)
     status = regs.get(reg, {}).get('status', 'unmapped')
-    if reg.startswith(('u2f/', 'window-straddle/', 'hash-',
+    if reg.startswith(('u2f/', 'window-straddle/', 'hash-', 'top-bit-key/',
                        'two-biased-issuers/')) or \
         reg == 'gmp-lcg':
       status = regs.get(reg, {}).get('status', 'enforced')
